@@ -206,6 +206,8 @@ def ops_for(cfg):
            ["write_target", 1], ["write_target", 2], ["delete_target"]]
     if cfg["fallback"]:
         ops.append(["read_alias_mutate"])
+    if cfg["host"] == "plain" or cfg["fallback"]:
+        ops.append(["write_alias", None])  # a local override / forwarded value of exactly None is a value
     if cfg["host"] == "spec":
         ops += [["write_alias", "bad"], ["cow_alias", 5], ["deepcopy"], ["reset"]]
         if cfg["path"] == "plain":
